@@ -367,6 +367,7 @@ class Ctx:
         self.analysed_funcs: set = set()
         self.counters: Dict[str, int] = {}
         self.extra: Dict[str, Any] = {}
+        self.floor_failures: List[str] = []
 
     # ------------------------------------------------------------ recording
     def ob(self, rule: str, func: Optional[Func], construct: Any, ok: bool,
@@ -392,10 +393,13 @@ class Ctx:
             self.assumptions.append(txt)
 
     def floor(self, rule: str, found: int, minimum: int, what: str):
+        """A rule matching fewer sites than a loose lower bound cannot be trusted to have looked at the
+        right code.  Deferred: violations already found are still reported (exit 1); with no violation
+        the run ends as ANALYSIS-ERROR (exit 2), never as a pass."""
         self.counters[rule + ":" + what] = found
         if found < minimum:
-            raise AnalysisError("%s: floor not met for %s: matched %d site(s), "
-                                "at least %d confirmed by hand" % (rule, what, found, minimum))
+            self.floor_failures.append("%s: floor not met for %s: matched %d site(s), at least %d expected"
+                                       % (rule, what, found, minimum))
 
     def func(self, suffix: str, *alts: str) -> Func:
         for s in (suffix,) + alts:
@@ -552,6 +556,12 @@ def finish(ctx: Ctx, t0: float, spec: Dict[str, Any], extra_cov: Optional[Dict[s
         os.makedirs(os.path.join(VERIF, "evidence"), exist_ok=True)
         with open(os.path.join(VERIF, "evidence", ctx.prop + ".json"), "w") as fh:
             json.dump(ev, fh, indent=1)
+    if ctx.floor_failures and not viol:
+        for m in ctx.floor_failures:
+            print("ANALYSIS-ERROR property=%s %s" % (ctx.prop, m))
+        return 2
+    for m in ctx.floor_failures:
+        print("NOTE: %s" % m)
     print("%s %s: %d obligations, %d discharged, %d known finding(s), %d violation(s), "
           "%d not decided; %d functions analysed; %.2fs"
           % (ctx.prop, ctx.tier, len(decided), cov["discharged"], len(kf), len(viol),
